@@ -107,6 +107,22 @@ CHECKS = {
                      'process tables',
                 note='signatures carry an event-during-handshake qualifier so that the known handshake-window finding does not '
                      'mask losses in steady state; which stopped-like state is shown is not compared'),
+    'C13': dict(engine='E2-seq', category='exploration', technique='bounded-exhaustive hostile message sequences injected into the real '
+                'listener of instances brought to isolation by real histories; non-interference on the full observable snapshot',
+                ref='DESIGN.md section 4, C13',
+                text='isolation is reached by silence under auto_fence, by the NOT_AUTHORIZED answer (reciprocity) and by each strategy '
+                     'option differing; every sequence of forged publications / notifications up to length 2 (3 thorough) from the '
+                     'isolated peer must leave the observable snapshot unchanged and cause no traffic towards it; process events '
+                     'from STOPPED / CHECKING peers must be ignored; ISOLATED must survive a fair closure',
+                note='alphabet: 11 message kinds x timestamps x 4 claimed origins; PROCESS_ADDED from a not-yet-admitted peer is not in '
+                     'the statement and not judged'),
+    'C17': dict(engine='E2-seq', category='exploration', technique='complete finite matrix (method x state x parameters) on live '
+                'instances brought to each Supvisors state by a real history, against the verifier\'s own gating table',
+                ref='DESIGN.md section 4, C17',
+                text='every public XML-RPC x every Supvisors state (Master and slave) x parameter grid: expected fault or acceptance '
+                     'from an independent table; rejected calls must emit nothing and leave every observable snapshot and the job '
+                     'state unchanged',
+                note='status queries in FINAL and psutil-dependent methods are outside the matrix'),
     'C14': dict(engine='E2-seq', category='exploration', technique='bounded-exhaustive input enumeration on real Context '
                 'objects of a live (handshaken) cluster against a set-valued reference model',
                 ref='DESIGN.md section 4, C14',
